@@ -323,7 +323,7 @@ structure SDecl (κ : Type) where
   name : κ
   src : κ
   ctx : Nat
-  deriving Repr
+  deriving DecidableEq, Repr
 
 section routing
 variable {κ : Type} [DecidableEq κ]
@@ -385,14 +385,60 @@ def engRun (net : Net σ ε) (c : Nat) : σ → List ε → List ε
 /-- What the network theorem needs from the engine of context `c` (M-ENGINE's business): fed any
 sequence `X`, it emits only events of its own streams, and each of its streams emits what its
 transducer yields on the stream's source sequence — taken from the engine's own emissions when the
-source is a stream of the same context, from `X` otherwise. -/
+source is a stream of the same context, from `X` otherwise. (`X` holds no event of a type the
+context produces itself: such events never come back through the inbox.) -/
 def EngineOK {τ : Type} (P : Prog τ ε) (net : Net σ ε) (s0 : σ) (c : Nat) : Prop :=
-  ∀ X : List ε,
+  ∀ X : List ε, (∀ x ∈ X, ownerOf P.streams (P.ty x) ≠ some c) →
     (∀ o ∈ engRun net c s0 X, ∃ s ∈ P.streams, s.ctx = c ∧ P.ty o = s.name) ∧
     ∀ s ∈ P.streams, s.ctx = c →
       (engRun net c s0 X).filter (fun e => P.ty e = s.name) =
         (P.fn s.name).outs
           (if ownerOf P.streams s.src = some c then (engRun net c s0 X).filter (fun e => P.ty e = s.src)
            else X.filter (fun e => P.ty e = s.src))
+
+/-! ## the engine of a context (M-ENGINE's `process_inner`, streams as transducers) -/
+
+def SFun.runSt {τ : Type} (f : SFun τ ε) : τ → List ε → τ
+  | t, [] => t
+  | t, x :: xs => SFun.runSt f (f.step t x).1 xs
+
+/-- one event through every stream of context `c` that consumes its type, in program order
+(`for stream_name in router.get_routes(event_type)`); stream states are kept by stream name -/
+def applyEv {τ : Type} (P : Prog τ ε) (c : Nat) (st : Nat → τ) (x : ε) : (Nat → τ) × List ε :=
+  (P.streams.filter (fun sd => sd.ctx = c ∧ sd.src = P.ty x)).foldl
+    (fun acc sd =>
+      let r := (P.fn sd.name).step (acc.1 sd.name) x
+      (upd acc.1 sd.name r.1, acc.2 ++ r.2)) (st, [])
+
+/-- one level of the pending queue, in queue order -/
+def applyList {τ : Type} (P : Prog τ ε) (c : Nat) : (Nat → τ) → List ε → (Nat → τ) × List ε
+  | st, [] => (st, [])
+  | st, x :: xs =>
+    let r := applyEv P c st x
+    let r2 := applyList P c r.1 xs
+    (r2.1, r.2 ++ r2.2)
+
+/-- `Engine::process_inner`: the FIFO `pending_events` queue holds all depth-`d` events before any
+depth-`d+1` event, so it is processed level by level; every processed event's outputs are emitted
+at once and queued one level deeper; events at depth ≥ `fuel` (`MAX_CHAIN_DEPTH = 10`) are dropped -/
+def levels {τ : Type} (P : Prog τ ε) (c : Nat) : Nat → (Nat → τ) → List ε → (Nat → τ) × List ε
+  | 0, st, _ => (st, [])
+  | f + 1, st, xs =>
+    let r := applyList P c st xs
+    let r2 := levels P c f r.1 r.2
+    (r2.1, r.2 ++ r2.2)
+
+/-- nothing was cut off by the depth limit -/
+def levelsDone {τ : Type} (P : Prog τ ε) (c : Nat) : Nat → (Nat → τ) → List ε → Bool
+  | 0, _, xs => xs.isEmpty
+  | f + 1, st, xs => let r := applyList P c st xs; levelsDone P c f r.1 r.2
+
+/-- the network whose contexts run `process_inner` on their share of the program -/
+def progNet {τ : Type} (P : Prog τ ε) (n cap : Nat) (blocking : Bool) (fuel : Nat) : Net (Nat → τ) ε :=
+  { n := n, cap := cap, blocking := blocking, dflt := 0,
+    route := fun e => routeTy P.streams (P.ty e),
+    proc := fun c st x => levels P c fuel st [x] }
+
+def progInit {τ : Type} (P : Prog τ ε) : Nat → Nat → τ := fun _ name => (P.fn name).init
 
 end Varpulis.Ctx
